@@ -7,6 +7,7 @@ import BVM.Model.Bits
 import BVM.Model.Rt
 import BVM.Model.Api
 import BVM.Model.Tsdl
+import BVM.Model.Meta
 open Lean BVM
 
 namespace Drv
@@ -282,6 +283,15 @@ def handleLayout (cfg : Cfg) (o : GenOpts) (j : Json) : Option String :=
   | "files" => some (String.intercalate " " (fileNamesOf o))
   | "macros" => some (String.intercalate " " ((shorthandMacros o cfg).map fun (a, b) => a ++ "=" ++ b))
   | "ids" => some (String.intercalate " " (sortedNames ((getArr j "names").map fun v => (v.getStr?).toOption.getD "")))
+  | "escape" =>
+    let bytes : Array UInt8 := ((ofHex (getStr j "hex")).map fun (n : Nat) => n.toUInt8).toArray
+    let str := String.fromUTF8! (ByteArray.mk bytes)
+    some (toHex ((escapeDq str).toUTF8.toList.map fun (b : UInt8) => b.toNat))
+  | "loglevel" => some (match (j.getObjVal? "v") with
+      | .ok .null => "none"
+      | .ok v => ((logLevelLine (some (jInt v))).getD "none")
+      | _ => "none")
+  | "range" => some (rangeStr (getInt j "lo") (getInt j "hi"))
   | "cliprefix" => some (let r := cliPrefixes (getStr j "p"); r.1 ++ " " ++ r.2)
   | _ => none
 
